@@ -232,6 +232,16 @@ func scenario(flavor string, h []Step, mode string, eager bool) *explore.Scenari
 		sc.Bounds = explore.Bounds{Faults: 1, Preemptions: 1}
 	case "f2":
 		sc.Bounds = explore.Bounds{Faults: 2}
+	case "p3":
+		sc.Bounds = explore.Bounds{Preemptions: 3}
+	case "p4":
+		sc.Bounds = explore.Bounds{Preemptions: 4}
+	case "f1p2":
+		sc.Bounds = explore.Bounds{Faults: 1, Preemptions: 2}
+	case "pall": // every schedule (no preemption bound; feasible with the explorer's state cache)
+		sc.Bounds = explore.Bounds{Preemptions: 1 << 20}
+	case "f1pall":
+		sc.Bounds = explore.Bounds{Faults: 1, Preemptions: 1 << 20}
 	}
 	faulty := strings.HasPrefix(mode, "f")
 	sc.New = func() *explore.Instance {
@@ -420,6 +430,8 @@ type workerOut struct {
 	Violations []explore.Violation `json:"violations"`
 	Capped     bool                `json:"capped"`
 	Infra      string              `json:"infra"`
+	Pruned     int64               `json:"pruned"`
+	States     int64               `json:"hb_states"`
 }
 
 type plan struct {
@@ -437,10 +449,13 @@ func plans(thorough bool) []plan {
 	}
 	if thorough {
 		return []plan{{2, false, []string{"p2", "f1p1", "f2"}, []string{"own", "default"}}, {3, false, []string{"p1", "f1"}, []string{"own", "default"}},
-			{3, true, []string{"p2", "f1p1"}, []string{"own"}}, {4, true, []string{"p1"}, []string{"own"}}}
+			{3, true, []string{"p2", "f1p1"}, []string{"own"}}, {4, true, []string{"p1"}, []string{"own"}}, {2, true, []string{"p3"}, []string{"own"}}}
 	}
 	return []plan{{2, true, []string{"p2", "f1p1"}, []string{"own"}}, {2, false, []string{"p1", "f1"}, []string{"own", "default"}}, {3, true, []string{"p1"}, []string{"own"}}}
 }
+
+// state-cache statistics of the explorer, summed over scenarios
+var cutExecs, hbStates int64
 
 func main() {
 	explore.BeforeExec = []func(){cdi.VerifResetGlobals}
@@ -470,7 +485,7 @@ func main() {
 						done[key] = true
 						// two preemptions only pay off where a watcher goroutine can meet a reconfiguration:
 						// the history must contain both a Configure and a directory change
-						if mode == "p2" || mode == "f1p1" {
+						if mode != "p1" && mode != "f1" && mode != "f2" {
 							hasC, hasF := false, false
 							for _, s := range h {
 								hasC = hasC || s.Kind == "configure"
@@ -482,7 +497,7 @@ func main() {
 						}
 						for _, flavor := range pl.flavors {
 							for _, eager := range []bool{true, false} {
-								if eager && (mode == "p2" || mode == "f2") {
+								if eager && mode != "p1" && mode != "f1" && mode != "f1p1" {
 									continue // with two deviations the lazy order's schedule set covers the eager default's neighbourhood
 								}
 								k++
@@ -490,7 +505,7 @@ func main() {
 									continue
 								}
 								res := explore.Explore(scenario(flavor, h, mode, eager), time.Unix(dl, 0))
-								_ = enc.Encode(workerOut{Index: hi, Flavor: flavor, Mode: mode, Eager: eager, Executions: res.Executions, Points: res.Points, Outcomes: res.Outcomes, Violations: res.Violations, Capped: res.Capped, Infra: res.Infra})
+								_ = enc.Encode(workerOut{Index: hi, Flavor: flavor, Mode: mode, Eager: eager, Executions: res.Executions, Points: res.Points, Outcomes: res.Outcomes, Violations: res.Violations, Capped: res.Capped, Infra: res.Infra, Pruned: res.Pruned, States: res.States})
 							}
 						}
 					}
@@ -601,6 +616,8 @@ func main() {
 			r.Cap("time cap hit")
 		}
 		r.AddEvals(o.Executions, o.Executions)
+		cutExecs, hbStates = cutExecs+o.Pruned, hbStates+o.States
+		r.Extra["executions_cut_at_an_explored_state"], r.Extra["happens_before_states_stored"] = cutExecs, hbStates
 		r.States.Add(o.Points)
 		r.Transitions.Add(o.Points)
 		for k := range o.Outcomes {
